@@ -128,4 +128,10 @@ theorem b64Encode_valid (bs : Bytes) (h : AllBytes bs) : XsdBase64 (b64Encode bs
       b64Char_alpha _ (by omega)]
     exact .quad a b c _ _ ha hb hc (ih (fun x hx => h x (by simp [hx])))
 
+theorem removeWs_noSpace (e : Env) (s : Str) (h : ∀ c ∈ s, e.isSpace c = false) : removeWs e s = s := by
+  unfold removeWs
+  rw [List.filter_eq_self]
+  intro c hc
+  simp [h c hc]
+
 end Xs.Conv
